@@ -104,7 +104,7 @@ MiscFam == {DNull, DBool(TRUE), DBool(FALSE)} \cup NullPatterns
            \cup { DArr([i \in 1..40 |-> DNum(IntStr(i))]),
                   DObj(<<U("name"), U("list"), U("nested"), U("flag"), U("none"), U("ratio")>>,
                        <<DStr(U("darklua")), DArr(<<DNum("1"), DStr(U("two")), DBool(FALSE), DNull, DArr(<<>>)>>),
-                         DObj(<<U("deep")>>, <<DObj(<<U("er")>>, <<DArr(<<DNum("-1.5")>>)>>)>>), DBool(TRUE), DNull, DNum("0.25")>>),
+                         DObj(<<U("deep")>>, <<DArr(<<DNum("-1.5"), DNull, DStr(U("x"))>>)>>), DBool(TRUE), DNull, DNum("0.25")>>),
                   DArr(<<DArr(<<DArr(<<DNull, DBool(FALSE)>>)>>), DObj(<<>>, <<>>), DArr(<<>>)>>) }
 
 Fams == <<"keys", "strings", "numbers", "shapes", "misc">>
